@@ -219,16 +219,26 @@ def rule_sha(ctx, R):
 LOSSY = re.compile(r"String::from_utf8_lossy$|mlua::String::to_str$|mlua::.*::to_string_lossy$")
 
 
+def runner_stable(fn):
+    import runner
+    return runner.stable_fn(fn) if hasattr(runner, "stable_fn") else fn
+
+
 def rule_bin_script(ctx, R):
     """KEYS / ARGV / redis.call arguments and replies cross the Lua boundary as bytes"""
-    fns = [LE + "setup_keys_and_args", LE + "execute_unified_redis_command", LE + "resp_frame_to_lua_value", LE + "lua_value_to_resp",
-           EX + "LuaCommandAdapter::execute_lua_command"]
+    # every function of the Lua engine (helpers and closures included, so that moving a
+    # conversion into a helper does not hide it) plus the script-side adapter
+    fns = sorted(f for f, fb in ctx.prog.bodies.items()
+                 if (f.startswith(LE) or f == EX + "LuaCommandAdapter::execute_lua_command") and "::tests::" not in f)
     n = 0
     for fn in fns:
-        b = ctx.prog.need(fn)
+        b = ctx.prog.bodies[fn]
         hits = [(i, t) for i, t in b.calls() if LOSSY.search(t["f"] or "") or LOSSY.search(callee(t))]
-        strargs = [p for p in range(1, b.nargs + 1) if re.search(r"Vec<std::string::String>", b.locals[p])]
+        strargs = [p for p in range(1, b.nargs + 1) if re.search(r"Vec<std::string::String>", b.locals[p])] if b.kind != "Closure" else []
         n += 1
+        if not hits and not strargs:
+            R.trivial(); continue
+        key_fn = runner_stable(fn)
         R.inst(fn, "byte-safety", {"function": fn.split("::")[-1], "lossy_or_utf8_only_conversions": len(hits), "string_typed_argument_vectors": len(strargs)})
         if hits:
             R.finding(fn, "lossy-conversion", "%s converts script data through %s: binary KEYS/ARGV/arguments/replies do not arrive byte-for-byte (non-UTF-8 is replaced or refused)" % (fn.split("::")[-1], shared.short_callee(hits[0][1]["f"])), b.loc(hits[0][0]))
@@ -333,17 +343,29 @@ def _built(b, region, rx, group=1):
     return out
 
 
+# finding keys name the ROLE of the conversion function (stable under renames / helper splits)
+ROLE_R2L = LE + "resp_frame_to_lua_value"
+ROLE_L2R = LE + "lua_value_to_resp"
+
+
 def rule_conv(ctx, R):
     # ---- RESP -> Lua
-    b = ctx.prog.need(LE + "resp_frame_to_lua_value")
-    cells = _cells(ctx, b, 2, "protocol::resp::RespFrame")
+    b = None; cells = None
+    for fn_, fb in sorted(ctx.prog.bodies.items()):
+        if not fn_.startswith(LE) or fb.kind == "Closure" or "mlua::Value" not in fb.locals[0]:
+            continue
+        for p_ in range(1, fb.nargs + 1):
+            if fb.locals[p_] == "protocol::resp::RespFrame":
+                c_ = _cells(ctx, fb, p_, "protocol::resp::RespFrame")
+                if c_ and (cells is None or len(c_) > len(cells)):
+                    b, cells = fb, c_
     if not cells:
-        R.broken.append("match on the frame not found in resp_frame_to_lua_value"); return
+        R.broken.append("no function of the Lua engine matches on a RespFrame and returns a Lua value"); return
     n = 0
     for cell, ref in sorted(R2L_REF.items()):
         if cell not in cells:
-            R.inst(b.fn, "resp->lua:" + cell, {"arm": None})
-            R.finding(b.fn, "resp->lua:%s:no-arm" % cell, "no conversion arm for %s replies" % cell, b.loc()); continue
+            R.inst(ROLE_R2L, "resp->lua:" + cell, {"arm": None})
+            R.finding(ROLE_R2L, "resp->lua:%s:no-arm" % cell, "no conversion arm for %s replies" % cell, b.loc()); continue
         n += 1
         sw, tb = cells[cell]
         reg = cfg.edge_dom_set(b, sw, tb)
@@ -353,9 +375,9 @@ def rule_conv(ctx, R):
         # counts it as the conversion itself
         if cell == "Error":
             got = got | ({"error"} if errs else set())
-        R.inst(b.fn, "resp->lua:" + cell, {"builds": sorted(got), "reference": sorted(ref)})
+        R.inst(ROLE_R2L, "resp->lua:" + cell, {"builds": sorted(got), "reference": sorted(ref)})
         if got != ref:
-            R.finding(b.fn, "resp->lua:%s:%s" % (cell, "+".join(sorted(got)) or "nothing"),
+            R.finding(ROLE_R2L, "resp->lua:%s:%s" % (cell, "+".join(sorted(got)) or "nothing"),
                       "a %s reply is converted to Lua %s; the standard conversion gives %s" % (cell, "/".join(sorted(got)) or "nothing", "/".join(sorted(ref))), b.loc(tb))
         if cell == "Array/Some":
             sets = []; pushes = []
@@ -375,10 +397,10 @@ def rule_conv(ctx, R):
                     P = prov.operand_origins(b, t["a"][1])
                     if P.has_call(r"Iterator>::(next|enumerate)|iter::range"):
                         pos_ok = True
-            R.inst(b.fn, "resp->lua:Array/Some:positions", {"indexed_stores": len(sets), "appends": len(pushes), "index_from_loop_counter": pos_ok})
+            R.inst(ROLE_R2L, "resp->lua:Array/Some:positions", {"indexed_stores": len(sets), "appends": len(pushes), "index_from_loop_counter": pos_ok})
             if pushes or not pos_ok:
                 y = (pushes or sets or [tb])[0]
-                R.finding(b.fn, "resp->lua:Array/Some:positions", "array elements are %s (line %d): a nil element does not occupy its slot, so every later element of the reply moves down one index" % ("appended to the table instead of being stored at their position" if pushes else "not stored at an index derived from their position", b.bb_line(y)), b.loc(y))
+                R.finding(ROLE_R2L, "resp->lua:Array/Some:positions", "array elements are %s (line %d): a nil element does not occupy its slot, so every later element of the reply moves down one index" % ("appended to the table instead of being stored at their position" if pushes else "not stored at an index derived from their position", b.bb_line(y)), b.loc(y))
     R.floor("resp_to_lua_cells", n)
     # pcall error value
     hb = ctx.prog.need(LE + "handle_command_error_with_context")
@@ -387,21 +409,72 @@ def rule_conv(ctx, R):
     if got != {"Table"}:
         R.finding(hb.fn, "resp->lua:Error/pcall:%s" % ("+".join(sorted(got)) or "nothing"), "under redis.pcall an error reply becomes Lua %s; the standard conversion gives a table with an `err` field" % ("/".join(sorted(got)) or "nothing"), hb.loc())
     # ---- Lua -> RESP
-    b = ctx.prog.need(LE + "lua_value_to_resp")
-    cells = _cells(ctx, b, 2, None)
+    # the Lua -> RESP conversion is found by its shape (a function of the Lua engine returning a
+    # RespFrame that matches on a parameter of type mlua::Value), not by its name
+    b = None; cells = None
+    for fn_, fb in sorted(ctx.prog.bodies.items()):
+        if not fn_.startswith(LE) or fb.kind == "Closure" or fb.locals[0] != "protocol::resp::RespFrame":
+            continue
+        for p_ in range(1, fb.nargs + 1):
+            if re.match(r"^mlua::(value::)?Value$", fb.locals[p_]):
+                c_ = _cells(ctx, fb, p_, None)
+                if c_ and (cells is None or len(c_) > len(cells)):
+                    b, cells = fb, c_
     if not cells:
-        R.broken.append("match on the value not found in lua_value_to_resp"); return
+        R.broken.append("no function of the Lua engine matches on a mlua::Value and returns a RespFrame"); return
     m = 0
     for cell, ref in sorted(L2R_REF.items()):
         if cell not in cells:
-            R.inst(b.fn, "lua->resp:" + cell, {"arm": None, "cells": sorted(cells)})
-            R.finding(b.fn, "lua->resp:%s:no-arm" % cell, "no conversion arm for Lua %s values" % cell, b.loc()); continue
+            R.inst(ROLE_L2R, "lua->resp:" + cell, {"arm": None, "cells": sorted(cells)})
+            R.finding(ROLE_L2R, "lua->resp:%s:no-arm" % cell, "no conversion arm for Lua %s values" % cell, b.loc()); continue
         m += 1
         sw, tb = cells[cell]
         reg = cfg.edge_dom_set(b, sw, tb)
         got = _built(b, reg, RESPV)
-        R.inst(b.fn, "lua->resp:" + cell, {"builds": sorted(got), "reference": sorted(ref)})
+        R.inst(ROLE_L2R, "lua->resp:" + cell, {"builds": sorted(got), "reference": sorted(ref)})
         if got != ref:
-            R.finding(b.fn, "lua->resp:%s:%s" % (cell, "+".join(sorted(got)) or "nothing"),
+            R.finding(ROLE_L2R, "lua->resp:%s:%s" % (cell, "+".join(sorted(got)) or "nothing"),
                       "a Lua %s is converted to RESP %s; the standard conversion gives %s" % (cell, "/".join(sorted(got)) or "nothing", "/".join(sorted(ref))), b.loc(tb))
     R.floor("lua_to_resp_cells", m)
+
+
+def rule_pcall(ctx, R):
+    """redis.pcall lets the script continue: in the body shared by redis.call and redis.pcall
+    every error that can be returned to the Lua VM is raised by the one helper that looks at
+    `is_pcall` (errors of the Lua API itself, e.g. Table::set, excepted).  An error constructed
+    anywhere else aborts the script under pcall too."""
+    import errflow
+    fn = LE + "execute_unified_redis_command"
+    b = ctx.prog.need(fn)
+    helper = LE + "handle_command_error_with_context"
+    hb = ctx.prog.need(helper)
+    # the helper really switches on its bool parameter
+    sw = False
+    for x, bb in enumerate(hb.bbs):
+        t = bb["t"]
+        if t["k"] == "switch" and not op_is_const(t["d"]):
+            P = prov.operand_origins(hb, t["d"])
+            if any(hb.locals[p] == "bool" for p in P.params()):
+                sw = True
+    R.inst(helper, "pcall-switch", {"helper_branches_on_is_pcall": sw})
+    if not sw:
+        R.finding(helper, "pcall:helper-ignores-flag", "the error helper does not branch on is_pcall: redis.pcall behaves like redis.call", hb.loc())
+    E = errflow.ErrFlow(ctx)
+    org = E.origins(fn)
+    bad = {}
+    for o in org:
+        if o[0] == "ctor" and o[1] == helper:
+            continue
+        if o[0] == "extern" and o[1].startswith("mlua::"):
+            continue
+        if o[0] == "param":
+            continue
+        where = o[1] if o[0] == "ctor" else (o[2] or o[1])
+        bad.setdefault(where, o)
+    R.inst(fn, "error-origins", {"origins": len(org), "functions_followed": len(E.memo), "outside_the_pcall_helper": sorted(bad)})
+    R.floor("error_origins_of_redis_call_body", len(org))
+    for where, o in sorted(bad.items()):
+        wb = ctx.prog.bodies.get(where)
+        loc = "%s:%s" % (wb.file, o[-1]) if wb is not None and o[-1] else b.loc()
+        R.finding(fn, "pcall:error-raised-outside-helper:%s" % where.split("::")[-1],
+                  "an error returned to the Lua VM from the body shared by redis.call and redis.pcall is raised in %s, not by the helper that honours is_pcall: under redis.pcall this condition aborts the script instead of letting it continue" % where.split("::")[-1], loc)
